@@ -76,6 +76,9 @@ type roundOut struct {
 	BareRSA         bool               `json:"bare_rsa"`
 	BareFirstPairs  int                `json:"bare_first_pairs"`
 	Variants        map[string]int     `json:"variants"`
+	HeteroDecs      int                `json:"hetero_decs"`
+	HeteroPairs     map[string]int     `json:"hetero_pairs"`
+	Burst           []burstKindOut     `json:"burst,omitempty"`
 	WarmDoubleClose int                `json:"warm_double_close"`
 	DoubleCloseOps  int                `json:"double_close_ops"`
 	EncOverlapPairs int                `json:"enc_overlap_pairs"`
@@ -105,9 +108,11 @@ type world struct {
 	ei  *agessh.Ed25519Identity
 	ri  *agessh.RSAIdentity
 
-	warmRec age.Recipient     // unshared, used alone by the warm-up
-	prov    map[string]string // constructor variant of each shared value in this round
-	bareRSA bool              // the RSA identity wraps a key without Precomputed values
+	warmRec age.Recipient // unshared, used alone by the warm-up
+	hk      hkeys
+	hetero  map[string][]*hfile // heterogeneous-header files per identity kind
+	prov    map[string]string   // constructor variant of each shared value in this round
+	bareRSA bool                // the RSA identity wraps a key without Precomputed values
 
 	idLists  map[string][]age.Identity  // shared slices, passed as ids...
 	recLists map[string][]age.Recipient // shared slices, passed as recs...
@@ -179,6 +184,8 @@ func newWorld(seed int64) *world {
 		w.probes[p] = w.buildFile(p, probePlain, rng)
 	}
 	w.warmRec = w.x2.Recipient()
+	w.hk = hkeys{x1: w.x1, x2: w.x2, e1: w.e1, e2: w.e2, r1: w.r1}
+	w.hetero = buildHetero(w.hk, mon.NewRNG(seed, "c20/hetero"), true)
 	w.fresh(0)
 	return w
 }
@@ -347,8 +354,10 @@ func (w *world) buildFile(party string, pt []byte, rng *rand.Rand) []byte {
 // ---- operation templates -----------------------------------------------------
 
 type tmpl struct {
-	name string   // stable name
-	key  string   // name used in violation keys (name if empty)
+	name string // stable name
+	key  string // name used in violation keys (name if empty)
+	het  string // heterogeneous-header pool the operation draws from: X, E, R or * (any); the op is then `reps` decryptions in a row
+	reps int
 	list string   // shared list spread into the call (identities for dec/wrong, recipients for enc)
 	kind string   // enc | derive | dec | wrong
 	objs []string // shared objects the operation touches (a derived recipient also touches the identity it aliases)
@@ -404,6 +413,13 @@ func init() {
 				objs: append([]string{l}, all...), file: f})
 		}
 	}
+	// heterogeneous headers: consecutive decryptions of files in which the shared
+	// identity's stanza is at position k of n, n in {1, 2, 3, 8, 17, 40}
+	decPool = append(decPool,
+		&tmpl{name: "dec:Xi/hetero", kind: "dec", objs: []string{"Xi"}, ids: []string{"Xi"}, het: "X", reps: 3},
+		&tmpl{name: "dec:Ei/hetero", kind: "dec", objs: []string{"Ei"}, ids: []string{"Ei"}, het: "E", reps: 2},
+		&tmpl{name: "dec:Ri/hetero", kind: "dec", objs: []string{"Ri"}, ids: []string{"Ri"}, het: "R", reps: 2},
+		&tmpl{name: "dec:IL1.../hetero", key: "dec:IL1.../hetero", list: "IL1", kind: "dec", objs: append([]string{"IL1"}, all...), het: "*", reps: 2})
 	for i, f := range []string{"X2", "R2", "E2", "S2"} {
 		l := []string{"IL0", "IL1", "IL2", "IL1"}[i]
 		wrongPool = append(wrongPool, &tmpl{name: "wrong:" + l + ".../" + f, key: "wrong:" + l + "...", list: l, kind: "wrong",
@@ -478,9 +494,11 @@ var tick atomic.Int64
 type opInst struct {
 	t       *tmpl
 	g, j    int
-	file    []byte // dec/wrong input, enc output
-	scratch []byte // reusable output buffer
-	variant int    // "sloppy but legal caller" variation, see encVariants / decVariants
+	file    []byte   // dec/wrong input, enc output
+	scratch []byte   // reusable output buffer
+	hfiles  []*hfile // heterogeneous-header inputs (templates with het)
+	subs    []subRec // one record per decryption of such an operation
+	variant int      // "sloppy but legal caller" variation, see encVariants / decVariants
 
 	call, head, ret int64
 	io              int64
@@ -525,6 +543,63 @@ func (w *world) recipients(t *tmpl) []age.Recipient {
 	return out
 }
 
+// subRec is one decryption inside a heterogeneous-header operation.
+type subRec struct {
+	kind      string
+	n         int
+	call, ret int64
+}
+
+func execHetero(w *world, op *opInst, rng *rand.Rand) {
+	var ids []age.Identity
+	if op.t.list != "" {
+		ids = w.idLists[op.t.list]
+	} else {
+		for _, n := range op.t.ids {
+			ids = append(ids, w.ids[n])
+		}
+	}
+	buf := make([]byte, 4096)
+	for i, f := range op.hfiles {
+		src := &mon.PerturbReader{R: cr{bytes.NewReader(f.file), &op.io}, Rng: rng}
+		c := tick.Add(1)
+		if i == 0 {
+			op.call = c
+		}
+		op.subs = append(op.subs, subRec{kind: f.kind, n: f.n, call: c})
+		r, err := age.Decrypt(src, ids...)
+		if i == 0 {
+			op.head = tick.Load()
+		}
+		var out []byte
+		var rerr error
+		if err == nil {
+			for {
+				n, e := r.Read(buf)
+				out = append(out, buf[:n]...)
+				if e != nil {
+					rerr = e
+					break
+				}
+			}
+		}
+		op.ret = tick.Add(1)
+		op.subs[i].ret = op.ret
+		where := fmt.Sprintf("file %d of the operation, stanza %d of %d: ", i, f.k, f.n)
+		switch {
+		case err != nil:
+			op.fail, op.failWhat = "decrypt-error", where+err.Error()
+		case rerr != io.EOF:
+			op.fail, op.failWhat = "read-error", where+fmt.Sprintf("%d bytes then %v", len(out), rerr)
+		case !bytes.Equal(out, f.plain):
+			op.fail, op.failWhat = "plaintext-differs", where+fmt.Sprintf("got %d bytes, expected %d", len(out), len(f.plain))
+		}
+		if op.fail != "" {
+			return
+		}
+	}
+}
+
 func execOp(w *world, op *opInst, pt []byte, rng *rand.Rand) {
 	defer func() {
 		if p := recover(); p != nil {
@@ -540,6 +615,10 @@ func execOp(w *world, op *opInst, pt []byte, rng *rand.Rand) {
 			}
 		}
 	}()
+	if op.t.het != "" {
+		execHetero(w, op, rng)
+		return
+	}
 	switch op.t.kind {
 	case "enc", "derive":
 		vn := encVariants[op.variant%len(encVariants)]
@@ -703,7 +782,7 @@ func runRound(w *world, jb *job, no, G, P, size int, mix string) *roundOut {
 	t0 := time.Now()
 	runtime.GOMAXPROCS(jb.Full)
 	ro := &roundOut{Rep: jb.Rep, Round: no, G: G, P: P, Size: size, Mix: mix,
-		ByTmpl: map[string]int{}, ByKind: map[string]int{}, Variants: map[string]int{}, Obj: map[string]*objOut{}, ErrClasses: map[string]int{}}
+		ByTmpl: map[string]int{}, ByKind: map[string]int{}, Variants: map[string]int{}, HeteroPairs: map[string]int{}, Obj: map[string]*objOut{}, ErrClasses: map[string]int{}}
 	label := fmt.Sprintf("c20/rep%d/round%d", jb.Rep, no)
 	rrng := mon.NewRNG(jb.Seed, label)
 	w.fresh(no + 7*jb.Rep)
@@ -735,6 +814,19 @@ func runRound(w *world, jb *job, no, G, P, size int, mix string) *roundOut {
 			all = append(all, op)
 		}
 	}
+	for _, op := range all {
+		if op.t.het == "" {
+			continue
+		}
+		for i := 0; i < op.t.reps; i++ {
+			k := op.t.het
+			if k == "*" {
+				k = []string{"X", "E", "R"}[rrng.Intn(3)]
+			}
+			op.hfiles = append(op.hfiles, pickHetero(w.hetero[k], rrng))
+		}
+	}
+
 	// Rounds whose RSA identity wraps a bare key: the first call of up to six
 	// goroutines, behind the barrier, decrypts an ssh-rsa file, so that the
 	// first private-key operations on the fresh key overlap.
@@ -756,7 +848,7 @@ func runRound(w *world, jb *job, no, G, P, size int, mix string) *roundOut {
 	var needs []*need
 	seenNeed := map[string]bool{}
 	for _, op := range all {
-		if op.t.kind != "dec" {
+		if op.t.kind != "dec" || op.t.het != "" {
 			continue
 		}
 		k := fmt.Sprintf("%s/%d", op.t.file, op.g)
@@ -774,10 +866,11 @@ func runRound(w *world, jb *job, no, G, P, size int, mix string) *roundOut {
 	}
 	wantCap := size + (size/65536+1)*16 + 4096
 	for i, op := range all {
-		switch op.t.kind {
-		case "dec":
+		switch {
+		case op.t.het != "":
+		case op.t.kind == "dec":
 			op.file = w.blkFiles[fmt.Sprintf("%s/%d", op.t.file, op.g)]
-		case "wrong":
+		case op.t.kind == "wrong":
 			op.file = w.wrongFiles[op.t.file]
 		}
 		for len(w.scratch) <= i {
@@ -856,6 +949,28 @@ func runRound(w *world, jb *job, no, G, P, size int, mix string) *roundOut {
 
 	w.checkLists(ro, all, fmt.Sprintf("goroutines %d, GOMAXPROCS=%d, payload %d, mix %s", G, P, size, mix),
 		map[string]any{"rep": jb.Rep, "round": no, "goroutines": G, "gomaxprocs": P, "payload": size, "mix": mix})
+
+	// heterogeneous headers: overlapping decryptions on one shared identity
+	// whose headers have different stanza counts
+	subsBy := map[string][]subRec{}
+	for _, op := range all {
+		for _, sr := range op.subs {
+			if sr.ret != 0 {
+				subsBy[sr.kind] = append(subsBy[sr.kind], sr)
+				ro.HeteroDecs++
+			}
+		}
+	}
+	for kind, list := range subsBy {
+		sort.Slice(list, func(i, j int) bool { return list[i].call < list[j].call })
+		for i, a := range list {
+			for _, b := range list[:i] {
+				if b.ret > a.call && b.n != a.n {
+					ro.HeteroPairs[kind]++
+				}
+			}
+		}
+	}
 
 	// bookkeeping
 	var encOps []*opInst
@@ -1114,7 +1229,11 @@ func runChild(jobPath string) {
 			}
 		}
 	}
-	enc.Encode(&roundOut{Done: true, Rounds: no, Rep: jb.Rep})
+	// tight-loop burst under the race detector (no perturbation, unknown-type fillers)
+	runtime.GOMAXPROCS(jb.Full)
+	bpools := buildHetero(w.hk, mon.NewRNG(jb.Seed, "c20/burst/pool"), false)
+	burst := runBurst(w.hk, bpools, jb.Seed, fmt.Sprintf("race-rep%d", jb.Rep), 8, map[string]int{"X": 100, "E": 40, "R": 8})
+	enc.Encode(&roundOut{Done: true, Rounds: no, Rep: jb.Rep, Burst: burst})
 	bw.Flush()
 	f.Close()
 	os.Exit(0)
